@@ -325,9 +325,10 @@ def _rsa_check_spec(r, name, pool_has_storage_fams):
     default_equiv = k >= 48
   elif name == "CheckBitPatterns":
     params = {"pattern_sizes": sorted(r.sample(
-        [1, 3, 5, 7, 8, 16, 31, 32, 64, 128, 255, 256, 300, 511, 1000], 4))}
+        [1, 3, 5, 7, 8, 16, 31, 32, 64, 128, 255, 256, 300, 511, 1000],
+        r.choice([0, 1, 4, 4, 6])))}
   elif name == "CheckPollardpm1":
-    params = {"bound": r.choice([50, 1000, 2**14])}
+    params = {"bound": r.choice([3, 50, 1000, 2**14])}
   elif name == "CheckGCDN1":
     k = r.choice([64, 128, 160, 200, 300])
     params = {"gcd_bound": 2**k}
